@@ -38,7 +38,13 @@ RULE = ('(a) round trips: random dtype (incl. structured, big-endian, bool, comp
         '(get_chunk and is_complete of every array, get_dask_array of two of them) on Dict / NPY / S3 with the S3 store URL in both modes (bare endpoint with the '
         'bucket in the names incl. two buckets, or bucket and key prefix in the store URL, with / without trailing slash), the '
         'endpoint\'s key set compared with the documented names; a 6 % stream of ill-formed names (empty / dot components: '
-        'finding C07-F7); round trips (a) and sequences (c) on S3 also use both URL modes. A case is non-trivial when it stores at least two chunks / has a non-empty '
+        'finding C07-F7); round trips (a) and sequences (c) on S3 also use both URL modes; (k) the BYTES of the .npy object: 36 dtypes of every '
+        'object-free kind (bool, (u)int, float incl. f2, complex, S, V, U, datetime64 / timedelta64, structured incl. nested and sub-array fields; '
+        'both byte orders), 0-3 dims with zero-size axes, 9 memory layouts, put_chunk / get_chunk on NPY (buffered and O_DIRECT) and S3: the '
+        'stored bytes are parsed by numpy (version 1.0, C order, shape, dtype, body, 64-byte alignment: property) and for the modelled kinds '
+        'compared byte for byte with the model file and decoded by both model readers (tie); objects of other writers (numpy write_array 1.0 / 2.0 '
+        'in either order; the MODEL writer with format 1.0 / 2.0 / 3.0 and paddings 0-200) planted under the chunk name and read by get_chunk; '
+        'a 10 % stream of truncated objects (never data, always a ChunkStoreError). A case is non-trivial when it stores at least two chunks / has a non-empty '
         'selection / actually splits a dimension / has an underscore in the bucket / has a non-C layout of a >= 2 x 2 array / puts at least two graphs / names at least two arrays; distinct by its '
         'canonical input')
 ASSUMPTIONS = ['dask merges the graphs handed to one compute call by task name (modelled: of several requests with the same '
@@ -61,8 +67,9 @@ ASSUMPTIONS = ['dask merges the graphs handed to one compute call by task name (
 # so the driver found at import time is the one of the previous tree: keep a copy of it (only if it is up to date with the
 # model sources on disk, contains every wire of this check and the proofs of this check are up to date with it = a good tree) and let the search use it when wires of this check are missing.
 
-C07_WIRES = (7, 71, 72, 73, 74)
-C07_MODEL_SOURCES = ('Model/Chunks.v', 'Model/ChunksMulti.v', 'Model/ChunksGenPy.v', 'Model/ChunksUrl.v', 'Base/Sx.v')
+C07_WIRES = (7, 71, 72, 73, 74, 75)
+C07_MODEL_SOURCES = ('Model/Chunks.v', 'Model/ChunksMulti.v', 'Model/ChunksGenPy.v', 'Model/ChunksUrl.v', 'Model/ChunksNpy.v', 'Model/Npy.v',
+                     'Base/Sx.v')
 
 
 def _sources_hash(core):
@@ -1319,6 +1326,212 @@ def run_foreign_cases(ctx, be, cases):
 
 
 # ---------------------------------------------------------------------------------------------------
+# (k) the BYTES of the .npy object: every object-free dtype kind, 0-3 dims (zero-size axes too), 9 memory layouts, through
+# put_chunk / get_chunk on NPY (both write paths) and S3; the stored bytes against the byte-level model (wire_75), files
+# of other writers (numpy's write_array 1.0 / 2.0 in either order, and the MODEL's writer with arbitrary padding) read by
+# katdal's readers, truncated files
+
+NPYF_DTYPES = ['u1', 'i1', '<i2', '>i2', '<i4', '>i4', '<i8', '>u8', '<u2', '>u4', '<f2', '>f2', '<f4', '>f4', '<f8', '>f8',
+               '?', '<c8', '>c8', '<c16', '>c16', 'S1', 'S3', 'S7', 'V2', 'V5', '<U1', '<U2', '>U3', '<M8[s]', '>M8[ns]',
+               '<m8[us]', [('a', '<u2'), ('b', '>f4')], [('re', 'i1'), ('f', '?'), ('t', 'S2')],
+               [('p', '<f8', (2,)), ('q', [('x', '>i2'), ('y', '<c8')])], [('u', '<U2'), ('d', '<M8[s]')]]
+NPYF_MODEL_KINDS = 'biufcSV'
+
+
+def npyf_values(dtype, shape):
+    """Array of `dtype` whose elements all differ (as far as the dtype allows): raw bytes derived from the element number."""
+    dt = np.dtype(dtype)
+    n = int(np.prod(shape, dtype=int))
+    if dt.names is None and dt.kind in 'biufcSU':
+        return conv(dt, np.arange(n).reshape(shape))
+    if dt.names is None and dt.kind in 'Mm':
+        return (np.arange(n, dtype=np.int64) * 1000003 + 17).view(dt.newbyteorder('=')).astype(dt).reshape(shape)
+    if dt.names is None and dt.kind == 'V':
+        raw = np.array([[(7 * k + 3 * j + 1) % 256 for j in range(dt.itemsize)] for k in range(n)], np.uint8).reshape(n, dt.itemsize)
+        return raw.view(dt).reshape(shape) if n else np.zeros(shape, dt)
+    out = np.zeros(shape, dt)
+    for k, f in enumerate(dt.names):
+        sub_dt, sub_shape = (dt[f].subdtype if dt[f].subdtype else (dt[f], ()))
+        out[f] = npyf_values(sub_dt, tuple(shape) + tuple(sub_shape)) if n else out[f]
+    return out
+
+
+def npyf_descr(dt):
+    """The model's descriptor of a dtype, or None when the dtype is outside Model/ChunksNpy.v."""
+    d = np.lib.format.dtype_to_descr(dt)
+    if isinstance(d, str) and len(d) >= 3 and d[0] in '<>|' and d[1] in NPYF_MODEL_KINDS and d[2:].isdigit() and int(d[2:]) == dt.itemsize:
+        return d
+    return None
+
+
+def npyf_items(x):
+    """Bytes of the elements of x in C order of the logical elements."""
+    b = np.ascontiguousarray(x).tobytes()
+    isz = x.dtype.itemsize
+    return [list(b[i * isz:(i + 1) * isz]) for i in range(x.size)]
+
+
+def gen_npyfile_cases(ctx, n):
+    rng = ctx.rng
+    out = []
+    for i in range(n):
+        kind = ['npy', 's3', 'npyd'][i % 3]
+        nd = rng.choice([0, 1, 1, 2, 2, 2, 3])
+        shape = [rng.choice([0, 1, 1, 2, 2, 3, 3, 4, 5]) if rng.random() < 0.9 else rng.choice([10, 11, 100, 1000, 99999])
+                 for _ in range(nd)]
+        while int(np.prod(shape, dtype=int)) > 4000:
+            shape[shape.index(max(shape))] = rng.randint(1, 3)
+        r = rng.random()
+        mode = 'put' if r < 0.55 else 'numpy_writer' if r < 0.75 else 'model_writer' if r < 0.9 else 'truncated'
+        c = dict(dtype=dt_repr(NPYF_DTYPES[(i // 3 + rng.randint(0, 1) * rng.randint(0, len(NPYF_DTYPES))) % len(NPYF_DTYPES)]),
+                 shape=shape, start=[rng.choice([0, 0, 3, 100000]) for _ in range(nd)], mode=mode,
+                 layout=rng.choice(LAYOUTS), fortran=rng.random() < 0.6, version=rng.choice([1, 1, 2, 3]),
+                 pad=rng.choice([0, 1, 5, 15, 16, 63, 64, 65, 200]), cut=rng.random())
+        out.append((kind, c))
+    return out
+
+
+def run_npyfile_cases(ctx, be, cases):
+    items = [(NAMED1[kind], [(a, a + n) for a, n in zip(c['start'], c['shape'])]) for kind, c in cases]
+    keys, norm = model_names(ctx, items)
+    for (kind, c), key in zip(cases, keys):
+        npyfile_case(ctx, be, kind, c, key, norm)
+
+
+def _plant(be, kind, store, key, norm, raw):
+    if kind == 's3':
+        be.s3.objects[norm[key]] = raw
+    else:
+        path = os.path.join(store.root, key)
+        os.makedirs(os.path.dirname(path), exist_ok=True)
+        with open(path, 'wb') as f:
+            f.write(raw)
+
+
+def npyfile_case(ctx, be, kind, c, key, norm):
+    dtype = np.dtype(dt_of(c['dtype']))
+    shape = tuple(c['shape'])
+    x = npyf_values(dtype, shape)
+    descr = npyf_descr(dtype)
+    mode = c['mode']
+    dk = 'structured' if dtype.names else dtype.kind + ('be' if dtype.byteorder == '>' else '')
+    sig = 'op=npyfile;backend=%s;mode=%s;dtype=%s;ndim=%d;' % (kind, mode, dk, len(shape))
+    sl = tuple(slice(a, a + n) for a, n in zip(c['start'], shape))
+    store, name, _ = be.new(kind, shape, dtype, NAMED1[kind])
+    s3 = kind == 's3'
+    ctx.count('npyfile:' + kind)
+    ctx.count('npyfile_mode=' + mode)
+    ctx.count('npyfile_dtype=' + dk)
+    ctx.count('npyfile_model=%s' % (descr is not None))
+    ctx.note_case(('npyfile', kind, repr(c)), nontrivial=x.size > 1, sample=dict(op='npyfile', backend=kind, **c))
+    ctx.traces_validated += 1
+    try:
+        if mode == 'put':
+            chunk = make_layout(x, c['layout'])
+            try:
+                store.put_chunk(name, sl, chunk)
+                g = np.asarray(store.get_chunk(name, sl, dtype))
+            except Exception as e:
+                ctx.disagree(sig + 'symptom=raised:%s' % type(e).__name__, c, repr(e)[:200], 'chunk', 'put_chunk / get_chunk of a valid chunk raised')
+                return
+            if not same(g, x):
+                ctx.disagree(sig + 'symptom=wrong_chunk', c, g.ravel()[:6].tolist() if not dtype.names else repr(g.ravel()[:3]), None,
+                             'chunk read back differs from the chunk written (bytes, dtype or shape)', spec=repr(x.ravel()[:3]))
+                return
+            raw = raw_object(be, kind, store, key, norm)
+            if raw is None:
+                ctx.disagree(sig + 'symptom=object_missing', c, None, key, 'no object under the chunk name')
+                return
+            # property on the stored bytes, for EVERY dtype: a valid version-1.0 .npy file that numpy itself reads back
+            try:
+                ver, oshape, fo, odt, body = parse_npy(raw)
+                back = np.load(io.BytesIO(raw), allow_pickle=False)
+            except Exception as e:
+                ctx.disagree(sig + 'symptom=object_unreadable', c, repr(e)[:200], key, 'stored object is not a valid .npy file')
+                return
+            off = len(raw) - len(body)
+            if not same(back, x):
+                ctx.disagree(sig + 'symptom=object_content', c, repr(back.ravel()[:3]), None,
+                             'numpy reads the stored .npy object as something else than the chunk written', spec=repr(x.ravel()[:3]))
+                return
+            # tie (every dtype): the model writes format 1.0, fortran_order False, the C-order listing of the logical elements
+            if (ver, oshape, fo, odt) != ((1, 0), shape, False, dtype) or body != np.ascontiguousarray(x).tobytes():
+                ctx.disagree(sig + 'symptom=object_header', c, [list(ver), list(oshape), fo, str(odt)], [[1, 0], list(shape), False, str(dtype)],
+                             'stored .npy object: version / shape / order / dtype / body differ from the model object', kind='tie')
+                return
+            if off % 64 != 0 or raw[off - 1:off] != b'\n':
+                ctx.disagree(sig + 'symptom=header_alignment', c, off, 'multiple of 64', 'the body of the stored object does not start on a 64-byte boundary (model: it does)', kind='tie')
+                return
+            if descr is not None:
+                its = npyf_items(x)
+                mo = ctx.model([[75, [1, codes(descr), 0, list(shape), its]], [75, [3, list(raw)]], [75, [4, 2, codes(descr), 0, list(shape)]]])
+                if bytes(mo[0]) != raw:
+                    k = next((i for i, (a, b) in enumerate(zip(bytes(mo[0]), raw)) if a != b), min(len(mo[0]), len(raw)))
+                    ctx.disagree(sig + 'symptom=file_bytes', c, list(raw[max(0, k - 4):k + 8]), mo[0][max(0, k - 4):k + 8],
+                                 'bytes of the stored object differ from the model file at offset %d (lengths %d / %d)' % (k, len(raw), len(mo[0])), kind='tie')
+                    return
+                want = [0, codes(descr), 0, list(shape), its]
+                if mo[1][0] != want or mo[1][1] != want:
+                    ctx.disagree(sig + 'symptom=model_decode', c, None, [m[:4] for m in mo[1]], 'model readers do not decode the stored object to the chunk', kind='tie')
+                    return
+                if mo[2][1] != off:
+                    ctx.disagree(sig + 'symptom=model_offset', c, off, mo[2], 'body offset differs from the model', kind='tie')
+            return
+        # files of other writers planted under the model's key
+        xo = np.asarray(x, order='F' if c['fortran'] else 'C')
+        fo_real = bool(xo.flags.f_contiguous and not xo.flags.c_contiguous)
+        if mode == 'model_writer':
+            if descr is None:
+                mode_raw = None
+            else:
+                major = c['version']
+                body_items = npyf_items(xo.T if fo_real else xo)       # Fortran order: first index fastest
+                mode_raw = bytes(ctx.model([[75, [2, major, 2 if major == 1 else 4, c['pad'], codes(descr), int(fo_real), list(shape), body_items]]])[0])
+            if mode_raw is None:
+                fp = io.BytesIO()
+                np.lib.format.write_array(fp, xo, version=(1, 0), allow_pickle=False)
+                mode_raw, major = fp.getvalue(), 1
+        else:
+            major = 2 if c['version'] == 2 else 1
+            fp = io.BytesIO()
+            np.lib.format.write_array(fp, xo, version=(major, 0), allow_pickle=False)
+            mode_raw = fp.getvalue()
+        raw = mode_raw
+        if mode == 'truncated':
+            raw = raw[:int(c['cut'] * len(raw))]
+        _plant(be, kind, store, key, norm, raw)
+        readable = mode != 'truncated' and (major in (1, 2) or not s3)
+        try:
+            g = np.asarray(store.get_chunk(name, sl, dtype))
+            err = None
+        except Exception as e:
+            g, err = None, e
+        if descr is not None:
+            mo = ctx.model([[75, [3, list(raw)]]])[0][1 if s3 else 0]
+            its = npyf_items(xo.T if fo_real else xo)
+            mwant = [0, codes(descr), int(fo_real), list(shape), its]
+            if readable and mo != mwant:
+                ctx.disagree(sig + 'symptom=model_decode', c, None, mo[:4], "model reader does not decode another writer's object", kind='tie')
+                return
+            if (mo[0] == 0) != (g is not None):
+                ctx.disagree(sig + 'symptom=reader_differs_from_model;version=%d' % major, c, repr(err)[:160] if err else 'data', mo[:1],
+                             'katdal reads / rejects an object that the model rejects / reads', kind='tie')
+                return
+        if g is not None and not same(g, x):
+            ctx.disagree(sig + 'symptom=wrong_chunk;fortran=%d;version=%d' % (fo_real, major), c, repr(g.ravel()[:3]), None,
+                         'chunk decoded from a .npy object differs from its content' if readable else 'a truncated object was returned as data',
+                         spec=repr(x.ravel()[:3]))
+        elif g is None and readable:
+            ctx.disagree(sig + 'symptom=get_raised:%s;fortran=%d;version=%d' % (type(err).__name__, fo_real, major), c, repr(err)[:200], 'chunk',
+                         'reading a valid .npy object raised')
+        elif g is None and not isinstance(err, ChunkStoreError):
+            ctx.disagree(sig + 'symptom=raw_exception:%s' % type(err).__name__, c, repr(err)[:200], 'ChunkStoreError',
+                         'an unreadable object escaped get_chunk as a raw exception')
+    finally:
+        be.done()
+
+
+# ---------------------------------------------------------------------------------------------------
 # (h) arrays written in several parts / to several stores by ONE dask compute call, read by one compute call
 
 MNAMES = {'dict': ['x', 'y'], 'npy': ['x', 'sub/y'], 's3': ['b_k/x_y', 'b_k/z']}
@@ -1958,6 +2171,8 @@ def run_witness(ctx, be, w):
         run_mismatch_cases(ctx, be, [(w['backend'], w['case'])])
     elif kind == 'naming':
         run_naming_cases(ctx, be, [w['case']])
+    elif kind == 'npyfile':
+        run_npyfile_cases(ctx, be, [(w['backend'], w['case'])])
 
 
 def run(ctx):
@@ -1989,6 +2204,7 @@ def run(ctx):
             stage('sequences', run_ops, ctx, be, ctx.scale(120, 1500))
             stage('layouts', run_layout_cases, ctx, be, gen_layout_cases(ctx, ctx.scale(400, 4800)))
             stage('foreign', run_foreign_cases, ctx, be, gen_foreign_cases(ctx, ctx.scale(120, 1500)))
+            stage('npyfile', run_npyfile_cases, ctx, be, gen_npyfile_cases(ctx, ctx.scale(360, 4500)))
             stage('multi', run_multi_cases, ctx, be, gen_multi_cases(ctx, ctx.scale(300, 3600)))
             stage('mismatch', run_mismatch_cases, ctx, be, gen_mismatch_cases(ctx, ctx.scale(120, 1500)))
             stage('naming', run_naming_cases, ctx, be, gen_naming_cases(ctx, ctx.scale(190, 2600)))
@@ -2006,6 +2222,8 @@ def run(ctx):
                            [74, [2, 1, codes('/bkt/'), [[0, codes('w_c'), [0], 1], [0, codes('w-c'), [0], 2], [1, codes('w_c'), [0]],
                                                          [2, codes('w_c')], [3, codes('w-c')], [3, codes('w_c')], [1, codes('a//b'), [5, -1]]]]],
                            [71, [1, [2, 3], 1]], [71, [2, [2, 3, 2], 1]], [71, [2, [], 1]],
+                           [75, [1, codes('<i2'), 0, [2, 3], [[k, 0] for k in range(6)]]], [75, [2, 2, 4, 5, codes('>f4'), 1, [2, 1], [[0, 0, 0, 1], [0, 0, 0, 2]]]],
+                           [75, [3, list(b'\x93NUMPY\x01\x00\x16\x00' + b"{'descr': '|u1', 'fortran_order': False, 'shape': (2,), }      \n"[:22])]], [75, [4, 2, codes('|S3'), 0, [1000, 0]]],
                            [72, [2, [[0, codes('x'), 7, 1, [[2, 2]], [0], 0], [0, codes('x'), 7, 2, [[2, 2]], [4], 4000],
                                      [1, codes('x'), 7, 1, [[2, 2]], [0], 0]],
                                  [[0, codes('x'), 7, [[2, 2, 2, 2]], [], []], [1, codes('x'), 7, [[2, 2]], [0], []],
@@ -2050,6 +2268,8 @@ def replay(ctx, doc):
                 run_foreign_cases(ctx, be, [(backend, case)])
             elif op == 'mismatch':
                 run_mismatch_cases(ctx, be, [(backend, case)])
+            elif op == 'npyfile':
+                run_npyfile_cases(ctx, be, [(backend, case)])
             elif op == 'naming':
                 run_naming_cases(ctx, be, [case])
             elif op == 'normalise_bucket':
